@@ -217,7 +217,7 @@ class Core:
             return ks
         return extra
 
-    def weigher(self, fields, oracles=None, root=None):
+    def weigher(self, fields, oracles=None, root=None, precise=False):
         """root: the operation whose own key (first `&str` parameter) distinguishes Srepl from S-"""
         own = None
         if root is not None and root.kind in ('fn', 'assoc_fn'):
@@ -225,7 +225,11 @@ class Core:
                 if root.local_ty(i) == '&str':
                     own = (root.id, i)
                     break
-        return Weigher(self.prog, fields, VOCAB, oracles=oracles, classify=classify_ext, extra=self.extra_kinds(), own_key=own)
+        w = Weigher(self.prog, fields, VOCAB, oracles=oracles, classify=classify_ext, extra=self.extra_kinds(), own_key=own)
+        # precise: directly called helpers contribute one outcome (return value, effect totals) per path class instead of a
+        # may-summary; only for rules whose oracles also fix the tests inside those helpers
+        w.precise_calls = precise
+        return w
 
     # ---- oracle sites of a lookup ---------------------------------------------------------------
     def lookup_sites(self, get):
@@ -1707,7 +1711,7 @@ def check_requeue_scenario(run, ctx, rule='C04-P3'):
             for p in range(6):
                 a = {'policy': p, 'limit': 0, 'max_memory': 0, 'ttl': 0}
                 orc = {s_: 1 for s_ in present}
-                w = C.weigher(a, orc, root=fn)
+                w = C.weigher(a, orc, root=fn, precise=True)
                 sp = w.spec(fn)
                 n += 1
                 key = '%s/%s/%s' % (flav, m, POL[p])
